@@ -123,11 +123,15 @@ def optStrings (r : Out (List Bytes)) : Out (Option (List Bytes)) :=
   | .err c => .err c
   | .panic s => .panic s
 
+/-- `if digest.is_empty() { None } else { Some(FileDigest::new(algorithm, digest)?) }` -/
+def digestOf (algo : Nat) (d : Bytes) : Out (Option (Nat × Bytes)) :=
+  if d.isEmpty then .ok none else (fileDigestNew algo d).map some
+
 def buildEntries (algo : Nat) (caps ima : Option (List Bytes)) :
     Nat → List Bytes → List Bytes → List Bytes → List Nat → List Bytes → List Nat → List Nat → List Nat → List Bytes →
     Out (List FileEntry)
   | idx, p :: ps, u :: us, g :: gs, m :: ms, d :: ds, t :: ts, s :: ss, f :: fs, l :: ls => do
-    let digest ← if d.isEmpty then pure none else (fileDigestNew algo d).map some
+    let digest ← digestOf algo d
     let e : FileEntry := ⟨p, m, u, g, t, s, f, digest, caps.bind (·[idx]?), l, ima.bind (·[idx]?)⟩
     let r ← buildEntries algo caps ima (idx + 1) ps us gs ms ds ts ss fs ls
     pure (e :: r)
